@@ -13,18 +13,30 @@ from sa.props._lib_b import (BIG, Interp, Spec, Unsupported, a_add, exit_check a
 PROPERTY = "C06"
 DEFER = "internet/defer.py"
 MODNAME = "twisted.internet.defer"
-TECHNIQUE = "inductive class invariant by abstract interpretation + queue/CFG discipline rules"
+TECHNIQUE = "abstract interpretation over the complete abstract state space + CFG / who-may-write rules"
+RULE_KINDS = {
+    # inductive class invariant and per-method post-conditions: abstract interpreter started from EVERY abstract state satisfying the
+    # invariant (the enumeration in LockSpec/SemSpec.states() is the whole finite abstract domain), sound transfer functions
+    "invariant/": "finite-exhaustive", "fire/": "finite-exhaustive", "container/": "finite-exhaustive", "type-error": "finite-exhaustive",
+    "acquire/": "finite-exhaustive", "release/": "finite-exhaustive", "cancel/": "finite-exhaustive",
+    # shape of the code: operation kinds, CFG must-pass / dominance, registration chains
+    "queue/": "structural", "init/": "structural", "run/": "structural", "aexit/": "structural", "aenter/": "structural",
+}
 EXPLANATION = (
-    "An abstract interpreter (exact small integers, 'at least 3' beyond, abstract container lengths, tracked Deferred "
-    "records, ghost holder count h) proves a class invariant inductive over acquire / release / the canceller of "
-    "DeferredLock [(locked <=> h=1) and (waiting non-empty => locked)] and DeferredSemaphore [tokens+h=limit, tokens>=0, "
-    "waiting non-empty => tokens=0]; it is required at every exit and at every opaque call-out (firing a Deferred that user "
-    "code may have callbacks on), after which the state is havocked because callbacks may re-enter.  Also decided: every "
-    "acquisition is queued xor granted, grants fire only Deferreds already detached from `waiting`, asserts never fail for a "
-    "legitimate caller, the canceller removes exactly the cancelled Deferred, `waiting` is FIFO by operation kind, __init__ "
-    "establishes the invariant (limit>=1), and run()/__aexit__ release exactly once through addBoth on the maybeDeferred result "
-    "while the function runs only via addCallback on acquire().  Not decided: behaviour of user functions passed to run(), "
-    "Deferred's own callback machinery (C01-C03)."
+    "Clause 'holders never exceed the limit / no capacity lost / granted as soon as free' - finite-exhaustive: an abstract "
+    "interpreter (container lengths 0,1,2,>=3; integers exact up to 2 and '>=3'; tracked Deferred records; ghost holder count h) "
+    "executes acquire / release / the canceller / any other mutator from EVERY abstract state satisfying the class invariant "
+    "[Lock: (locked <=> h=1) and (waiting non-empty => locked); Semaphore: tokens+h=limit, tokens>=0, waiting non-empty => "
+    "tokens=0] and proves it at every exit and at every opaque call-out (firing a Deferred user code may have callbacks on), "
+    "after which the state is havocked because callbacks may re-enter; the enumeration covers the whole abstract domain and "
+    "every transfer function over-approximates, so this is an inductive proof over all histories.  Same decider: every "
+    "acquisition queued xor granted, only detached Deferreds are fired, asserts hold for legitimate callers, the canceller "
+    "removes exactly the cancelled Deferred (clause 'cancelled acquisition never granted').  Clause 'request order' - structural: "
+    "operation kinds on `waiting` (fill at one end, consume at the other, remove only in the canceller).  Clause 'per-object "
+    "state / limit>=1' - structural: CFG must-pass of the initialisers along the MRO.  Clause 'run() releases exactly once, after "
+    "the result is available' - structural: registration chains (addCallback on acquire(), maybeDeferred, addBoth of the "
+    "releaser on the function's result, chain returned) and CFG exactly-once of release() in the releaser and __aexit__.  "
+    "Not decided: behaviour of user functions passed to run(), Deferred's own callback machinery (C01-C03)."
 )
 ASSUMPTIONS = [
     "release() is called only by current holders (the property's quantifier); the ghost holder count is decremented at its entry",
